@@ -1,7 +1,11 @@
 /* Wrapper TU for orc/orccodemem.c (properties C09, C06, C08): real file included verbatim. */
 #include "stubs/prelude.h"
 #include "stubs/os_stub.h"
+/* the single sprintf call (temp-file name) is redirected to a non-variadic model: dfcc cannot instrument variadic calls */
+int verif_sprintf3 (char *buf, const char *fmt, const char *dir);
+#define sprintf(buf, fmt, dir) verif_sprintf3(buf, fmt, dir)
 #include "/repo/orc/orccodemem.c"
+#undef sprintf
 #include "/repo/orc/orcutils.c"
 #include "stubs/log_stub.c"
 #include "stubs/os_stub.c"
@@ -144,3 +148,53 @@ void h_allocate(void) {
   orc_code_allocate_codemem(code, size);
   REACH();
 }
+
+/* ================================================================ C06: acquiring executable memory from a failing OS */
+#define REGION_SET(r) ((r)->size == 65536 && __CPROVER_is_fresh((r)->exec_ptr, 65536) && (r)->write_ptr != NULL)
+static int orc_code_region_allocate_codemem_dual_map (OrcCodeRegion *region, const char *dir, int force_unlink)
+__CPROVER_requires(__CPROVER_rw_ok(region, sizeof(*region)) && __CPROVER_r_ok(dir, 1))
+__CPROVER_requires(g_open_fds >= 0 && g_open_fds < 1000000 && g_live_maps >= 0 && g_live_maps < 1000000)
+__CPROVER_assigns(region->exec_ptr, region->write_ptr, region->size, g_open_fds, g_live_maps, g_mkstemp_calls, g_mmap_calls)
+/* every descriptor opened on the way is closed again, whatever fails */
+__CPROVER_ensures(g_open_fds == __CPROVER_old(g_open_fds))
+__CPROVER_ensures(__CPROVER_return_value == TRUE || __CPROVER_return_value == FALSE)
+__CPROVER_ensures(__CPROVER_return_value == TRUE ==> (REGION_SET(region) && g_live_maps == __CPROVER_old(g_live_maps) + 2))
+__CPROVER_ensures(__CPROVER_return_value == TRUE ==> __CPROVER_is_fresh(region->write_ptr, 65536))
+/* failure leaves no mapping behind */
+__CPROVER_ensures(__CPROVER_return_value == FALSE ==> g_live_maps == __CPROVER_old(g_live_maps));
+
+static int orc_code_region_allocate_codemem_anon_map (OrcCodeRegion *region)
+__CPROVER_requires(__CPROVER_rw_ok(region, sizeof(*region)) && g_live_maps >= 0 && g_live_maps < 1000000)
+__CPROVER_assigns(region->exec_ptr, region->write_ptr, region->size, g_live_maps, g_mmap_calls)
+__CPROVER_ensures(__CPROVER_return_value == TRUE ==> (REGION_SET(region) && g_live_maps == __CPROVER_old(g_live_maps) + 1))
+__CPROVER_ensures(__CPROVER_return_value == TRUE ==> region->write_ptr == region->exec_ptr)
+__CPROVER_ensures(__CPROVER_return_value == FALSE ==> g_live_maps == __CPROVER_old(g_live_maps));
+
+int orc_code_region_allocate_codemem (OrcCodeRegion *region)
+__CPROVER_requires(__CPROVER_rw_ok(region, sizeof(*region)))
+__CPROVER_requires(g_open_fds >= 0 && g_open_fds < 1000000 && g_live_maps >= 0 && g_live_maps < 1000000)
+__CPROVER_assigns(region->exec_ptr, region->write_ptr, region->size, g_open_fds, g_live_maps, g_mkstemp_calls, g_mmap_calls, __CPROVER_object_whole(g_env_val))
+__CPROVER_ensures(g_open_fds == __CPROVER_old(g_open_fds))
+__CPROVER_ensures(__CPROVER_return_value == TRUE ==> (REGION_SET(region) && g_live_maps > __CPROVER_old(g_live_maps)))
+__CPROVER_ensures(__CPROVER_return_value == FALSE ==> g_live_maps == __CPROVER_old(g_live_maps));
+
+/* NULL (nothing kept) or a region with usable mappings */
+OrcCodeRegion * orc_code_region_alloc (void)
+__CPROVER_requires(g_open_fds >= 0 && g_open_fds < 1000000 && g_live_maps >= 0 && g_live_maps < 1000000)
+__CPROVER_assigns(g_open_fds, g_live_maps, g_mkstemp_calls, g_mmap_calls, __CPROVER_object_whole(g_env_val))
+__CPROVER_ensures(g_open_fds == __CPROVER_old(g_open_fds))
+__CPROVER_ensures(__CPROVER_return_value == NULL ==> g_live_maps == __CPROVER_old(g_live_maps))
+__CPROVER_ensures(__CPROVER_return_value != NULL ==> (__CPROVER_is_fresh(__CPROVER_return_value, sizeof(OrcCodeRegion)) && REGION_SET(__CPROVER_return_value) &&
+                  __CPROVER_return_value->chunks == NULL));
+
+static OrcCodeRegion *mk_region(void) { OrcCodeRegion *r = malloc(sizeof(*r)); __CPROVER_assume(r != NULL); return r; }
+static void mk_os(void) { g_open_fds = nondet_int(); g_live_maps = nondet_int(); _orc_compiler_flag_debug = nondet_int(); g_mmap_calls = 0; g_mkstemp_calls = 0; }
+void h_dual_map(void) {
+  mk_os(); OrcCodeRegion *r = mk_region();
+  const char *dir = nondet_bool() ? "/tmp" : (g_env_val[7] = 0, g_env_val);
+  orc_code_region_allocate_codemem_dual_map(r, dir, nondet_int());
+  REACH();
+}
+void h_anon_map(void) { mk_os(); orc_code_region_allocate_codemem_anon_map(mk_region()); REACH(); }
+void h_region_allocate(void) { mk_os(); orc_code_region_allocate_codemem(mk_region()); REACH(); }
+void h_region_alloc(void) { mk_os(); orc_code_region_alloc(); REACH(); }
